@@ -3,8 +3,8 @@ CONSTANTS
   AsWritten = FALSE
   OpSet = "small"
   GenLen = 4
-  GenOps = "full"
-  NRand = 20000
+  GenOps = "mid"
+  NRand = 40000
   ReqFull = TRUE
 INIT GenInit
 NEXT GenNext
